@@ -63,3 +63,28 @@ Theorem C20_errors_div_zero_assign : forall o name y en en1,
   arithm (Bin o (Word name) y) en = (en1, Err EDivZero).
 Proof. exact div_zero_assign_impl. Qed.
 Print Assumptions C20_errors_div_zero_assign.
+
+(* C20_eval_matches, PARTIAL: the full statement
+     forall e en, wf e -> no_index e -> lits_ok e -> (every value of en is an integer literal) ->
+       snd (bash_eval e en) <> BU -> arithm e en = (fst (bash_eval e en), to_res (snd (bash_eval e en)))
+   is not proved (missing: atoi = lit_value on the literal grammar, C20_atoi, and the lexer lemma that an
+   integer literal parses to itself; both sides are compared by the code and spec legs on every run instead).
+   What is proved is the operator layer: wherever bash's result is defined (no signed overflow, shift count
+   0..63) every binary operator except `**` and every assignment operator of the Go code, with its int64
+   wrap-around, gives bash's value or bash's error. *)
+Theorem C20_eval_matches_operators_partial : forall o x y,
+  o <> Pow -> bash_bin o x y <> BU -> bin_arit o x y = to_res (bash_bin o x y).
+Proof. exact bin_matches. Qed.
+Print Assumptions C20_eval_matches_operators_partial.
+
+Theorem C20_eval_matches_assign_partial : forall o v a,
+  is_assign o = true -> bash_assgn_op o v a <> BU -> assgn_op o v a = to_res (bash_assgn_op o v a).
+Proof. exact assgn_matches. Qed.
+Print Assumptions C20_eval_matches_assign_partial.
+
+(* non-vacuity: a tree with every kind of node is well-formed, needs parentheses, and round-trips *)
+Example C20_example_roundtrip :
+  let e := Bin Mul (Bin Add (Word [49%N]) (Un Inc true (Word [120%N])))
+                   (Un Minus false (Bin Pow (Word [50%N]) (Bin TernQuest (Word [121%N]) (Bin TernColon (Word [51%N]) (Bin Assgn (Word [122%N]) (Word [52%N])))))) in
+  wf e = true /\ wp e = false /\ parse_tokens (print_min e) = Some (Some (min_paren e), []).
+Proof. vm_compute. repeat split. Qed.
